@@ -129,7 +129,7 @@ func init() {
 		{ID: "E1.issuer.provider-construction", Fn: "op.NewProvider", P: []string{"config", "storage", "issuer"}, Kind: "ret ok", Max: 1, Req: []string{"ok($issuer($o.insecure))"}},
 		{ID: "E8.discover.rp-asks-for-own-issuer", Fn: "client/rp.NewRelyingPartyOIDC", P: []string{"ctx", "issuer"}, Kind: "call", Pat: "client.Discover(_, $rp.issuer, $rp.httpClient, $rp.DiscoveryEndpoint)", Min: 1, Max: 1,
 			Why: "the issuer the discovery document is compared with is the one the relying party was created for",
-			Req: []string{"def($rp, &relyingParty{issuer: $issuer})"}},
+			Req: []string{"def($rp, &relyingParty{issuer: $issuer}) || eq($rp.issuer, $issuer)"}},
 		{ID: "E8.discover.rs-asks-for-own-issuer", Fn: "client/rs.newResourceServer", P: []string{"ctx", "issuer"}, Kind: "call", Pat: "client.Discover(_, $rs.issuer, $rs.httpClient)", Min: 1, Max: 1,
 			Req: []string{"def($rs, &resourceServer{issuer: $issuer})"}},
 		{ID: "E1.discover.issuer-equal", Fn: "client.Discover", P: []string{"ctx", "issuer", "httpClient"}, Kind: "ret ok", Max: 1,
